@@ -70,3 +70,13 @@ PROPS["C07"] = Prop(
     nontrivial=lambda s, impl: "res=ok" in impl or "res=err" in impl,
 )
 PARAMS["C07"] = {"rule": "N in {0..8,16,17,33} x item counts 0..=N+3 x nine size hints (exact, loose, absent-upper, lying low/high, excluding N) x fused / non-fused / never-ending scripts x stack/boxed x try/panicking form x a panic at every poll; plus seeded random scripts. Non-trivial = the call returned Ok or Err (not a panic)."}
+
+PROPS["C08"] = Prop(
+    "C08", ["GA.Props.C08"],
+    [Engine("own", scen.own_c08, sig=own_sig)],
+    trusted=[KERNEL, TRANSLATOR, HARNESS, OWN_TRUST],
+    assumptions=["caller code does not panic in this property (C04 covers panics); closures are stateful recorders in the harness",
+                 "correspondence covers N in {0..8,16,17,33}; theorems cover every N"],
+    nontrivial=lambda s, impl: " n=0 " not in s,
+)
+PARAMS["C08"] = {"rule": "generate, Default, Clone, map x4 receiver forms, fold x4 forms, zip x10 form pairs, each for drop-tracked and plain (no-drop) element types on either side (selecting the needs_drop branches), N in {0..8,16,17,33}; the ordered call log (call index, arguments) and the result are compared. Non-trivial = N > 0."}
